@@ -19,7 +19,7 @@ pub fn def() -> PropDef {
         nontrivial,
         rule: "programs of 3 actors (target with timers and optionally a child or a registry entry; a bystander that calls the target from inside its own handler; clients calling, sending, pinging, awaiting, joining) generated per block of 48 run indices; a fault-free run of the program counts the target's callbacks K and task polls J; the block then enumerates single faults by position: started returns Err (on the first start and, where the program restarts the target, on the restart), panic at entry of the k-th callback (k in 0..K, incl. started and stopped), task cancellation instead of the j-th poll (j in 1..J), timeout with fail_on_timeout, cancellation at a global step; remaining indices of the block repeat the list under other schedule seeds; the thorough tier adds a second fault; non-trivial = the fault fired while a client operation on the target was pending; distinct = distinct order of client-op and callback events",
         needed_probes: &["c06_fault_fired", "call_pending_at_death", "c06_bystander_checked", "c06_child_released", "c06_registry_after_failure", "c06_timer_owner_died", "c06_cancel_fired", "c06_panic_fired", "c06_start_err_fired", "c06_timeout_fail_fired"],
-        quick_runs: 96_000,
+        quick_runs: 192_000,
         thorough_runs: 2_400_000,
         block: BLOCK,
         flavours: &["tokio"],
